@@ -484,21 +484,47 @@ Qed.
 
 (* ------------------------------------------------------------------ compositions *)
 
-(* PRQL spelling -> value -> SQL text -> value read by the database: the same v *)
-Theorem string_literal_end_to_end tbl d v : table_ok tbl = true -> bs_free d v = true ->
+(* PRQL spelling -> value -> SQL text -> value read by the database: the same v.
+   d is the reading side; the writer's backslash flag is the one that fits it (which named dialects are configured
+   that way: string_roundtrip_by_dialect below) *)
+Theorem string_literal_end_to_end tbl d v : table_ok tbl = true ->
   exists src, quoted_string tbl true src = Some (v, []) /\
-              emit_literal false (LString v) = Some (emit_literal_string v) /\
-              sql_lex d (emit_literal_string v) = [TString v].
+              (forall sq, emit_literal sq (bs_escapes d) (LString v) = Some (emit_literal_string (bs_escapes d) v)) /\
+              sql_lex d (emit_literal_string (bs_escapes d) v) = [TString v].
 Proof.
-  intros Ht Hok. exists (34 :: spell v ++ [34]). split; [|split].
+  intros Ht. exists (34 :: spell v ++ [34]). split; [|split].
   - apply (spell_roundtrip tbl v [] Ht eq_refl).
   - reflexivity.
-  - apply literal_string_roundtrip, Hok.
+  - apply literal_string_roundtrip.
+Qed.
+
+(* the dialects by NAME: wt = who doubles backslashes (sql/dialect.rs), rt = who reads them as escapes.  Where the two
+   tables agree, every string round-trips on that dialect, in every context *)
+Theorem string_in_context_by_dialect except wt rt : flags_agree except wt rt = true ->
+  forall name w, In (name, w) wt -> existsb (leqb name) except = false ->
+  exists d, reader_of rt name = Some d /\ forall s pre suf,
+    closed_prefix d pre = true -> starts_with 39 suf = false ->
+    sql_lex d (pre ++ emit_literal_string w s ++ suf) = sql_lex d pre ++ TString s :: sql_lex d suf.
+Proof.
+  intros H name w Hin Hex. unfold flags_agree in H. rewrite forallb_forall in H.
+  specialize (H _ Hin). cbn [fst snd] in H. rewrite Hex in H. cbn [orb] in H.
+  destruct (reader_of rt name) as [d|]; [|discriminate]. exists d. split; [reflexivity|].
+  apply Bool.eqb_prop in H. subst w. intros s pre suf. apply literal_string_in_context.
+Qed.
+
+Theorem string_roundtrip_by_dialect except wt rt : flags_agree except wt rt = true ->
+  forall name w s, In (name, w) wt -> existsb (leqb name) except = false ->
+  exists d, reader_of rt name = Some d /\ sql_lex d (emit_literal_string w s) = [TString s].
+Proof.
+  intros H name w s Hin Hex.
+  destruct (string_in_context_by_dialect except wt rt H name w Hin Hex) as (d & Hd & L).
+  exists d. split; [exact Hd|]. pose proof (L s [] [] eq_refl eq_refl) as E.
+  cbn [app] in E. rewrite app_nil_r in E. exact E.
 Qed.
 
 Theorem int_literal_end_to_end d n : n <= I64_MAX ->
   lex_number (digits_of n) = Some (NInt n, []) /\
-  emit_literal false (LInt n) = Some (emit_int (Z.of_N n)) /\
+  (forall sq bs, emit_literal sq bs (LInt n) = Some (emit_int (Z.of_N n))) /\
   int_of_tokens (sql_lex d (emit_int (Z.of_N n))) = Some (Z.of_N n).
 Proof.
   intro H. split; [|split].
